@@ -15,6 +15,7 @@ import numpy as np
 from vmon import core, gen, contracts
 from vmon import refmodel as rm
 
+ANCHORS = ['evo/tools/plot.py']
 LEVEL = "exploration"
 SHARDS = {"quick": 8, "thorough": 16}
 RULE = ("trajectories of 2..60 (quick) / 500 (thorough) poses x 7 plot modes x length units {mm, cm, m, "
